@@ -122,7 +122,25 @@ fn check_value(o: &mut Out, r: &mut Rng, alg: &CrcAlg, t: &Ty, v: &Val, thorough
         other => o.fail("CRC-checked decoding returns the value and the bytes after the checksum", format!("{} {} bytes {}", alg.alg.name, ts, hex(&input)), format!("{:?}", other.map(|r| r.map(|(v, rest)| format!("{} {}", v, hex(&rest))))), format!("{} {}", vs, hex(&suffix))),
     }
     decode_check(o, alg, t, &ts, &input, "valid", false, true);
-    if want.len() > 40 || spec::has_zero_width_collection(t) {
+    if spec::has_zero_width_collection(t) {
+        return;
+    }
+    if want.len() > 40 {
+        // long frames (block reads of more than one digest block): sampled single-bit flips over
+        // the whole payload and in its last bytes, every checksum bit
+        let payload_bits = plain.len() * 8;
+        let mut flips: Vec<usize> = (0..16).map(|_| r.below(payload_bits as u64) as usize).collect();
+        flips.extend((0..8).map(|_| payload_bits - 1 - r.below(64.min(payload_bits as u64)) as usize));
+        flips.push(payload_bits - 1);
+        for i in flips {
+            let m = apply_burst(&want, alg.alg.refin, i, 1, 1);
+            let keeps_len = matches!(with_ty(t, || postcard::take_from_bytes::<Dyn>(&m[..plain.len()]).map(|(_, r)| r.len())), Ok(0));
+            decode_check(o, alg, t, &ts, &m, "long:bitflip_payload", keeps_len, false);
+        }
+        for i in payload_bits..want.len() * 8 {
+            let m = apply_burst(&want, alg.alg.refin, i, 1, 1);
+            decode_check(o, alg, t, &ts, &m, "long:bitflip_checksum", true, false);
+        }
         return;
     }
     let total_bits = want.len() * 8;
@@ -205,5 +223,21 @@ pub fn run(a: &Args) {
         let v = gen::gen_val(&mut r, &t, 3);
         check_value(&mut o, &mut r, &alg, &t, &v, a.thorough);
     }
-    o.finish(&a.summary, "generated shapes/values x 10 catalogue algorithms over the five checksum widths x three storages; per frame (<= 40 bytes): every single bit flip, sampled burst patterns of length <= width at every bit offset in the algorithm's bit order (all patterns for 8-bit algorithms on short frames), random multi-byte damage, every truncation; oracle: an accepted input's covered bytes are followed by their checksum recomputed by an independent bitwise CRC, and checksum-confined / single-bit / burst corruptions with unchanged decoded length are rejected; distinct = distinct (algorithm, shape, bytes)");
+    // long payloads handed to the checksum in one block read (str / bytes of several hundred bytes)
+    for (i, (t, v)) in gen::block_write_boundary_vals(&mut r, a.thorough).into_iter().enumerate() {
+        if i % 3 == 0 || a.thorough {
+            let alg = all[i % all.len()];
+            check_value(&mut o, &mut r, &alg, &t, &v, a.thorough);
+            o.bump("long_payload_values");
+        }
+    }
+    for len in [257usize, 300, 511, 512, 513, 1000] {
+        let alg = all[len % all.len()];
+        let v = Val::Bytes((0..len).map(|i| (i * 7 + 3) as u8).collect());
+        check_value(&mut o, &mut r, &alg, &Ty::Bytes, &v, a.thorough);
+        let v = Val::Tuple(vec![Val::unsigned(crate::dynval::IK::U8, 9), Val::Str(vec![b'k'; len]), Val::unsigned(crate::dynval::IK::U16, 65535)]);
+        check_value(&mut o, &mut r, &alg, &Ty::Tuple(vec![Ty::Int(crate::dynval::IK::U8), Ty::Str, Ty::Int(crate::dynval::IK::U16)]), &v, a.thorough);
+        o.bump("long_payload_values");
+    }
+    o.finish(&a.summary, "generated shapes/values x 10 catalogue algorithms over the five checksum widths x three storages; long str/bytes payloads (257..1000 bytes and around the 254-byte boundaries) with sampled payload flips and every checksum flip; per short frame (<= 40 bytes): every single bit flip, sampled burst patterns of length <= width at every bit offset in the algorithm's bit order (all patterns for 8-bit algorithms on short frames), random multi-byte damage, every truncation; oracle: an accepted input's covered bytes are followed by their checksum recomputed by an independent bitwise CRC, and checksum-confined / single-bit / burst corruptions with unchanged decoded length are rejected; distinct = distinct (algorithm, shape, bytes)");
 }
